@@ -40,6 +40,23 @@ EXTENDS Integers, Sequences, FiniteSets, TLC
 
 ---------------------------------------------------------------------------
 (* characters, tokens *)
+RECURSIVE Rep(_, _)
+Rep(c, k) == IF k <= 0 THEN <<>> ELSE <<c>> \o Rep(c, k - 1)
+(* NON-ASCII abstract characters (named by code point).  They are what Python's re / str / int() /
+   float() treat as equivalents of ASCII characters: case-folding partners of s, i, k under
+   re.IGNORECASE (U+017F long s, U+0130, U+0131 dotless i, U+212A Kelvin sign), a fullwidth letter
+   (U+FF21), digits of other scripts that \d, int() and float() accept (U+0661 Arabic-Indic one,
+   U+FF11 fullwidth one), signs (U+FF0B fullwidth plus, U+2212 minus) and characters that \s and
+   str.strip() take for whitespace (U+00A0, U+2003, U+3000, U+0085, U+001F).  The XSD lexical
+   grammars below are ASCII-exact: none of these is a digit, a letter of xs:language, a sign or
+   whitespace (XSD 1.1 4.3.6: whitespace is #x20, #x9, #xA, #xD only).  Only the XML Name classes
+   extend beyond ASCII, differently per XML edition: a literal of a Name-based type (NMTOKEN, Name,
+   NCName, ID, IDREF, ENTITY, QName) that contains one of the letter/digit-like ones is not judged. *)
+NonAsciiLetters == {"U017F", "U0130", "U0131", "U212A", "UFF21"}
+NonAsciiDigits  == {"U0661", "UFF11"}
+NonAsciiSigns   == {"UFF0B", "U2212"}
+UniWs           == {"U00A0", "U2003", "U3000", "U0085", "U001F"}
+NameishNonAscii == NonAsciiLetters \cup NonAsciiDigits \cup {"UFF0B"}
 ChunkMap ==
      ("INF"   :> <<"I","N","F">>) @@ ("NaN" :> <<"N","a","N">>)
   @@ ("true"  :> <<"t","r","u","e">>) @@ ("false" :> <<"f","a","l","s","e">>)
@@ -58,6 +75,9 @@ ChunkMap ==
   @@ ("+14:01" :> <<"+","1","4",":","0","1">>) @@ ("+05:30" :> <<"+","0","5",":","3","0">>)
   @@ ("-00:00" :> <<"-","0","0",":","0","0">>) @@ ("+00:00" :> <<"+","0","0",":","0","0">>)
   @@ ("+13:60" :> <<"+","1","3",":","6","0">>) @@ ("+5:30" :> <<"+","5",":","3","0">>)
+  @@ ("-00:30" :> <<"-","0","0",":","3","0">>) @@ ("-00:01" :> <<"-","0","0",":","0","1">>)
+  @@ ("-00:59" :> <<"-","0","0",":","5","9">>) @@ ("-05:30" :> <<"-","0","5",":","3","0">>)
+  @@ ("HEX58" :> Rep("0", 116))      \* 58 zero octets: base64 output longer than one 76-character MIME line
 Chars(tok) == IF tok \in DOMAIN ChunkMap THEN ChunkMap[tok] ELSE <<tok>>
 RECURSIVE Flat(_)
 Flat(ts) == IF ts = <<>> THEN <<>> ELSE Chars(Head(ts)) \o Flat(Tail(ts))
@@ -230,7 +250,9 @@ MkFlo(T, neg, ip, fp, e) ==
   ELSE IF T = "float" /\ (ex < -46 \/ (ex = -46 /\ FracGeq(FltUnder, sig))) THEN FloZero(T, neg)
   ELSE IF T = "double" /\ ex > 308 THEN FloInf(T, neg)
   ELSE IF T = "double" /\ ex < -324 THEN FloZero(T, neg)
-  ELSE [Flo(T, "fin", neg, sig, ex) EXCEPT !.ap = Len(sig) > 15]
+  (* below 10^-38 an xs:float is subnormal: its binary value has fewer significant digits than the
+     literal, so the decimal digits kept here are approximate (compared at single precision, terminal) *)
+  ELSE [Flo(T, "fin", neg, sig, ex) EXCEPT !.ap = (Len(sig) > 15 \/ (T = "float" /\ ex < -38))]
 EPos(s) == LET S == {i \in 1..Len(s) : s[i] \in {"e", "E"}} IN IF S = {} THEN 0 ELSE SetMin(S)
 ParseFloat(T, s, ver) ==
   IF s = <<"N","a","N">> THEN FloNaN(T)
@@ -278,8 +300,10 @@ IsLanguage(s) ==
   e - 1 >= 1 /\ e - 1 <= 8 /\ (\A i \in 1..(e - 1) : IsLetter(s[i])) /\ LangTail(Drop(s, e - 1))
 (* anyURI: every string is in the XSD 1.1 lexical space (3.3.17.2), but F&O 19.2 lets an implementation
    reject strings that are not RFC 3986 references: literals with ':', '%' or '#' are not judged *)
+HasNameish(s) == \E i \in 1..Len(s) : s[i] \in NameishNonAscii
 ParseStringLike(T, s) ==
   IF T = "anyURI" /\ (\E i \in 1..Len(s) : s[i] \in {":", "%", "#"}) THEN Err("UNSPEC")
+  ELSE IF T \in {"NMTOKEN", "Name", "NCName", "ID", "IDREF", "ENTITY"} /\ HasNameish(s) THEN Err("UNSPEC")
   ELSE IF T \in StringTypes \cup {"anyURI", "untypedAtomic"} THEN Str(T, s)
   ELSE IF (T = "NMTOKEN" /\ IsNmtoken(s)) \/ (T = "Name" /\ IsName(s)) \/ (T = "language" /\ IsLanguage(s))
           \/ (T \in {"NCName", "ID", "IDREF", "ENTITY"} /\ IsNCName(s)) THEN Str(T, s)
@@ -288,7 +312,8 @@ ParseStringLike(T, s) ==
 BoundPrefixes == {<<"a">>}
 ParseQName(s) ==
   LET S == {i \in 1..Len(s) : s[i] = ":"} IN
-  IF S = {} THEN (IF IsNCName(s) THEN [k |-> "qn", t |-> "QName", p |-> <<>>, l |-> s] ELSE Bad)
+  IF HasNameish(s) THEN Err("UNSPEC")
+  ELSE IF S = {} THEN (IF IsNCName(s) THEN [k |-> "qn", t |-> "QName", p |-> <<>>, l |-> s] ELSE Bad)
   ELSE LET c == SetMin(S)  p == Take(s, c - 1)  l == Drop(s, c) IN
        IF ~(IsNCName(p) /\ IsNCName(l)) THEN Bad
        ELSE IF p \notin BoundPrefixes THEN Err("FONS0004")
